@@ -19,8 +19,16 @@ for mp in sorted(glob.glob('/verif/seeded/*/meta.json')):
     need = re.sub(r'\s+', ' ', m.get('summary') or m['needs_to_manifest'])[:230]
     ini = initial.get(sid)
     ini_s = '—' if ini is None else (', '.join(ini[0]) or 'none') + (f' (harness error: {", ".join(ini[1])})' if ini[1] else '')
-    rows.append((sid, m['breaks_property'], need, ini_s, ', '.join(m['checks_reporting_a_violation']) or 'none',
-                 'yes' if m['detected_by_target_check'] else 'NO'))
+    now = list(m['checks_reporting_a_violation'])
+    det = m['detected_by_target_check']
+    fr = m.get('final_recheck')
+    if fr is not None:          # verdict of the target check as delivered (tools/reverify_seeded.py) overrides the one recorded when the change arrived
+        det = fr.get('target_check_exit') == 1
+        if det and m['breaks_property'] not in now:
+            now.insert(0, m['breaks_property'])
+        if not det and m['breaks_property'] in now:
+            now.remove(m['breaks_property'])
+    rows.append((sid, m['breaks_property'], need, ini_s, ', '.join(now) or 'none', 'yes' if det else 'NO'))
 
 print('| id | breaks | what the change does / needs to manifest | flagged by the checks as they were when the change arrived | flagged now | target check detects |')
 print('|---|---|---|---|---|---|')
